@@ -250,4 +250,89 @@ theorem key_lrtb_columns (bf : Rat) (hbf : bf < 1) (a b : BB) (hy : a.y0 + a.y1 
   nlinarith
 
 
+/-! ## the neighbour relation is scale invariant -/
+
+section
+variable {s : Rat} (hs : 0 < s)
+include hs
+
+theorem sep_scale (a0 a1 b0 b1 : Rat) : Spec.sep (s * a0) (s * a1) (s * b0) (s * b1) = s * Spec.sep a0 a1 b0 b1 := by
+  simp only [Spec.sep, ← mul_sub, max_scale hs]
+
+theorem absDiff_scale (x y : Rat) : Spec.absDiff (s * x) (s * y) = s * Spec.absDiff x y := by
+  simp only [Spec.absDiff, ← mul_sub, max_scale hs]
+
+theorem spec_neighborH_scale (r : Rat) (a o : BB) :
+    Spec.neighborH r (scaleBB s a) (scaleBB s o) = Spec.neighborH r a o := by
+  have e0 : ∀ x : Rat, s * x < 0 ↔ x < 0 := fun x => by
+    have := lt_scale hs x 0; simpa using this
+  have e1 : ∀ x : Rat, s * x < r * (s * a.height) ↔ x < r * a.height := fun x => by
+    rw [show r * (s * a.height) = s * (r * a.height) by ring, lt_scale hs]
+  have e2 : ∀ x : Rat, s * x ≤ r * (s * a.height) ↔ x ≤ r * a.height := fun x => by
+    rw [show r * (s * a.height) = s * (r * a.height) by ring, le_scale hs]
+  have e3 : ∀ x y z w : Rat, Spec.absDiff ((s * x + s * y) / 2) ((s * z + s * w) / 2)
+      = s * Spec.absDiff ((x + y) / 2) ((z + w) / 2) := fun x y z w => by
+    rw [show (s * x + s * y) / 2 = s * ((x + y) / 2) by ring, show (s * z + s * w) / 2 = s * ((z + w) / 2) by ring,
+      absDiff_scale hs]
+  simp only [Spec.neighborH, scale_height]
+  simp only [Spec.scaleBB, sep_scale hs, absDiff_scale hs, e3, e0, e1, e2]
+
+theorem spec_neighborV_scale (r : Rat) (a o : BB) :
+    Spec.neighborV r (scaleBB s a) (scaleBB s o) = Spec.neighborV r a o := by
+  have e0 : ∀ x : Rat, s * x < 0 ↔ x < 0 := fun x => by
+    have := lt_scale hs x 0; simpa using this
+  have e1 : ∀ x : Rat, s * x < r * (s * a.width) ↔ x < r * a.width := fun x => by
+    rw [show r * (s * a.width) = s * (r * a.width) by ring, lt_scale hs]
+  have e2 : ∀ x : Rat, s * x ≤ r * (s * a.width) ↔ x ≤ r * a.width := fun x => by
+    rw [show r * (s * a.width) = s * (r * a.width) by ring, le_scale hs]
+  have e3 : ∀ x y z w : Rat, Spec.absDiff ((s * x + s * y) / 2) ((s * z + s * w) / 2)
+      = s * Spec.absDiff ((x + y) / 2) ((z + w) / 2) := fun x y z w => by
+    rw [show (s * x + s * y) / 2 = s * ((x + y) / 2) by ring, show (s * z + s * w) / 2 = s * ((z + w) / 2) by ring,
+      absDiff_scale hs]
+  simp only [Spec.neighborV, scale_width]
+  simp only [Spec.scaleBB, sep_scale hs, absDiff_scale hs, e3, e0, e1, e2]
+
+/-- Which lines are neighbours of which does not depend on the scale (as a relation; the ORDER in
+which `find_neighbors` lists them does, see `C09_scale_cex`). -/
+theorem neighbors_scale (ratio : Rat) (hr : 0 ≤ ratio) (pageBB : BB)
+    (hp : pageBB.x0 ≤ pageBB.x1 ∧ pageBB.y0 ≤ pageBB.y1) (lines : List Line)
+    (hne : ∀ l ∈ lines, l.isEmpty = false) (l : Line) (hl : l ∈ lines) (j : Nat) :
+    j ∈ neighbors ratio (mkPlane (scaleBB s pageBB)
+          (((lines.map (scaleLine s)).zipIdx).map fun (x : Line × Nat) => x.1.pobj x.2))
+        (lines.map (scaleLine s)) (scaleLine s l)
+    ↔ j ∈ neighbors ratio (mkPlane pageBB (lines.zipIdx.map fun (x : Line × Nat) => x.1.pobj x.2)) lines l := by
+  have hp' : (scaleBB s pageBB).x0 ≤ (scaleBB s pageBB).x1 ∧ (scaleBB s pageBB).y0 ≤ (scaleBB s pageBB).y1 := by
+    simp only [Spec.scaleBB, le_scale hs]; exact hp
+  have hne' : ∀ l' ∈ lines.map (scaleLine s), l'.isEmpty = false := by
+    intro l' hl'
+    simp only [List.mem_map] at hl'
+    obtain ⟨l0, hl0, rfl⟩ := hl'
+    rw [isEmpty_scale hs]; exact hne l0 hl0
+  rw [neighbors_iff ratio hr _ hp' _ hne' _ (List.mem_map_of_mem hl) j, neighbors_iff ratio hr _ hp _ hne _ hl j]
+  simp only [List.getElem?_map]
+  constructor
+  · rintro ⟨m, hm, hv, hspec⟩
+    cases hj : lines[j]? with
+    | none => simp [hj] at hm
+    | some m0 =>
+      simp only [hj, Option.map_some, Option.some.injEq] at hm
+      subst hm
+      refine ⟨m0, rfl, hv, ?_⟩
+      have : (scaleLine s l).vertical = l.vertical := rfl
+      rw [this] at hspec
+      have hb1 : (scaleLine s l).bb = scaleBB s l.bb := rfl
+      have hb2 : (scaleLine s m0).bb = scaleBB s m0.bb := rfl
+      rw [hb1, hb2, spec_neighborH_scale hs, spec_neighborV_scale hs] at hspec
+      exact hspec
+  · rintro ⟨m, hm, hv, hspec⟩
+    refine ⟨scaleLine s m, by simp [hm], hv, ?_⟩
+    have : (scaleLine s l).vertical = l.vertical := rfl
+    rw [this]
+    have hb1 : (scaleLine s l).bb = scaleBB s l.bb := rfl
+    have hb2 : (scaleLine s m).bb = scaleBB s m.bb := rfl
+    rw [hb1, hb2, spec_neighborH_scale hs, spec_neighborV_scale hs]
+    exact hspec
+
+end
+
 end PdfVerif.Layout
